@@ -40,6 +40,42 @@ class _Subst(ast.NodeTransformer):
         return n
 
 
+def _is_arange(n):
+    return isinstance(n, ast.Call) and ast.unparse(n.func) == "np.arange" and len(n.args) == 1 and not n.keywords
+
+
+class _NodeDof(ast.NodeTransformer):
+    """normal form of the (node, component) tables of the local dofs, however spelled:
+         np.arange(nPe).reshape(nPe, 1).repeat(d, axis=1).ravel()[I]   ->  I // d
+         np.divmod(np.arange(N), d)[0][I]  /  (np.arange(N) // d)[I]   ->  I // d
+         np.divmod(np.arange(N), d)[1][I]  /  (np.arange(N) % d)[I]    ->  I % d
+       (entry I of np.arange(N) is I)"""
+
+    def visit_Subscript(self, n):
+        self.generic_visit(n)
+        v, idx = n.value, n.slice
+        if isinstance(idx, (ast.Slice, ast.Tuple)):
+            return n
+        # repeat table
+        if isinstance(v, ast.Call) and isinstance(v.func, ast.Attribute) and v.func.attr == "ravel" and not v.args:
+            r = v.func.value
+            if isinstance(r, ast.Call) and isinstance(r.func, ast.Attribute) and r.func.attr == "repeat" and len(r.args) == 1 \
+                    and [(k.arg, ast.unparse(k.value)) for k in r.keywords] == [("axis", "1")]:
+                rs = r.func.value
+                if isinstance(rs, ast.Call) and isinstance(rs.func, ast.Attribute) and rs.func.attr == "reshape" and _is_arange(rs.func.value):
+                    npe = ast.unparse(rs.func.value.args[0])
+                    if [ast.unparse(a) for a in rs.args] in ([npe, "1"], ["(%s, 1)" % npe]):
+                        return ast.BinOp(left=idx, op=ast.FloorDiv(), right=r.args[0])
+        # divmod tables
+        if isinstance(v, ast.Subscript) and isinstance(v.slice, ast.Constant) and v.slice.value in (0, 1):
+            c = v.value
+            if isinstance(c, ast.Call) and ast.unparse(c.func) in ("np.divmod", "divmod") and len(c.args) == 2 and _is_arange(c.args[0]):
+                return ast.BinOp(left=idx, op=ast.FloorDiv() if v.slice.value == 0 else ast.Mod(), right=c.args[1])
+        if isinstance(v, ast.BinOp) and isinstance(v.op, (ast.FloorDiv, ast.Mod)) and _is_arange(v.left):
+            return ast.BinOp(left=idx, op=v.op, right=v.right)
+        return n
+
+
 def _assigned_counts(fn):
     cnt = {}
 
@@ -68,6 +104,7 @@ def canon(fn, where):
 
     def sub(node, env):
         new = _Subst(env).visit(copy.deepcopy(node))
+        new = _NodeDof().visit(ast.fix_missing_locations(new))
         return ast.unparse(ast.fix_missing_locations(new))
 
     def block(stmts, env, depth):
